@@ -60,6 +60,10 @@ PROPS = {
             "rule": "identity: builder images with FAT/boot garbage (values in entries beyond the cluster count, bad marks, reserved FAT32 bits, random boot "
                     "code/OEM) for every FAT12 size 1..12 sectors + FAT16/32 + sector sizes; (1) mount+close lazy and eager: byte compare; (2) a session with "
                     "operations: boot sector, out-of-data-area FAT entries, bad marks, reserved bits, FAT copies, untouched files compared"},
+    "C17": {"suites": ["time", "codec"],
+            "rule": "time: one subprocess per zone (UTC, Europe/Berlin, America/New_York, Australia/Sydney, Asia/Kolkata, Pacific/Chatham; thorough adds MST7, "
+                    "Etc/GMT-14) x utc flag x instants (range edges, DST transitions of both hemispheres, odd seconds, leap days, random) incl. out-of-range; "
+                    "distinct = (zone, utc, DST phase); codec: all date/time words"},
     "C20": {
         "suites": ["codec"],
         "rule": "codec: exhaustive over all 65536 date and time words, all calendar dates 1980-2107, all 86400 times of day; "
@@ -147,6 +151,13 @@ MANIFEST_TEXT = {
                     "identity and the frame after operations judged on builder images with arbitrary garbage.",
             "note": _NOTE + "Valid images carry 0 in the half FAT12 entry at the end of a table whose length is 2 mod 3 (not an entry).",
             "technique": "Lean 4 proof of parse/serialise identity on whole tables and sectors + byte-level diff on real sessions"},
+    "C17": {"text": "Theorems for every time-zone environment obeying the database laws at the instant (valid fields 1980-2107, invertible = outside a fold, "
+                    "even-second offsets), utc on or off: getinfo(setinfo t) = t floored to 2 s (created/modified) and the start of t's day (accessed); stored "
+                    "words = specification encoding through the translated encoders; encoder refuses exactly out-of-range years. Zone database, choice of "
+                    "conversion per utc flag and wall-clock stamping decided in per-zone subprocesses on the real code.",
+            "note": _NOTE + "The DST fold hour is excluded in the statement (a local-time on-disk format cannot represent it). The tz database (CPython/glibc "
+                    "zoneinfo) is trusted; its laws are checked per instant by the suite, not proved.",
+            "technique": "Lean 4 proof parametric in the time-zone environment + per-zone subprocess round trips"},
     "C20": {
         "text": "Lean theorems, for all inputs: date/time decoders total and inverse to the *translated* serialize_date/serialize_time; "
                 "FAT12/16/32 parse/serialise mutually inverse for every table length (FAT12 tail residues, FAT32 reserved bits) and equal to the "
